@@ -18,11 +18,11 @@ Tie, for every generated GIR compiled with /repo's real g-ir-compiler:
 Normalisation used by (3)/(4) — what the typelib format does not store or the GIR dialect of
 g-ir-generate spells differently — is documented at class `Api` and in ctx.assumptions.
 
-PENDING_FINDINGS: the two defects of /repo HEAD left in girwriter.c / gistructinfo.h, each with an exact key;
-corpus/C09/hand_picked.json holds one minimal GIR per finding.  Its other cases are regressions that must
-pass without suppression: what the fix: commits repaired in the compiler (`repaired-compiler-constructs`,
-`hidden-and-shadowed`) and in the API / g-ir-generate (`union-deprecated`, `enum-with-methods`,
-`foreign-record-with-attributes`, `constant-deprecated-and-instance-transfer` for its constant).
+PENDING_FINDINGS is empty.  corpus/C09/hand_picked.json holds, as regressions that must pass without any
+suppression, one minimal GIR per defect this check found and /repo repaired (compiler: `repaired-compiler-constructs`,
+`repaired-compiler-constructs-2`, `hidden-and-shadowed`, `union-callback-member-then-method`; API / g-ir-generate:
+`union-deprecated`, `enum-with-methods`, `foreign-record-with-attributes`, `constant-deprecated-and-instance-transfer`,
+`nullable-out-parameter`, `boxed-entry`).
 """
 import json
 import os
@@ -38,17 +38,9 @@ CORE = 'http://www.gtk.org/introspection/core/1.0'
 CNS = 'http://www.gtk.org/introspection/c/1.0'
 GLIB = 'http://www.gtk.org/introspection/glib/1.0'
 
-# Failing inputs of the UNCHANGED tree (confirmed against the real code, see the final report /
-# known_findings): each key names the call site and the class of node it concerns.
-PENDING_FINDINGS = {
-    'generate:callable:instance-transfer':
-        'girwriter.c never writes the instance parameter, so instance transfer-ownership="full" '
-        '(SignatureBlob.instance_transfer_ownership) is lost in the generated GIR',
-    'generate:boxed:crash':
-        'g-ir-generate aborts on every typelib that has a <glib:boxed> entry: girwriter.c write_struct_info calls '
-        'g_struct_info_get_copy_function on the GI_INFO_TYPE_BOXED info, whose g_return_val_if_fail (GI_IS_STRUCT_INFO) '
-        'only admits GI_INFO_TYPE_STRUCT; tools/generate.c makes criticals fatal',
-}
+# Failing inputs of the UNCHANGED tree: none left.  (Every defect this check found in gibaseinfo.c, gistructinfo.h and
+# girwriter.c has been repaired in /repo; their minimal GIRs are regression cases in corpus/C09/hand_picked.json.)
+PENDING_FINDINGS = {}
 
 # ------------------------------------------------------------------------------------------
 # type vocabulary
@@ -1512,9 +1504,6 @@ def classify(check, d, expected_api):
                 return t[len(tok) + 1:]
         return None
     want, got = (val(exp), val(act)) if tok else (None, None)
-    # the PENDING finding, recognised by the exact datum that is wrong and the exact wrong value
-    if check == 'generate' and item == 'callable' and tok == 'instance_transfer' and (want, got) == ('2', '0'):
-        return 'generate:callable:instance-transfer'
     missing = 'missing' if act is None else ('unexpected' if exp is None else (tok or 'shape'))
     return '%s:%s:%s:%s' % (check, kname, item, missing)
 
@@ -1562,9 +1551,6 @@ def judge(ctx, cnt, res, where):
     if 'gen' in res:
         if res['gen_rc'] != 0:
             key = 'generate:crash'
-            if (any(exp_api.entry_kind(e) == 4 for e in exp_api.entries)
-                    and "g_struct_info_get_copy_function: assertion 'GI_IS_STRUCT_INFO (info)' failed" in res['gen_err']):
-                key = 'generate:boxed:crash'
             fail(key, 'g-ir-generate ended with %r on a compiled typelib: %s' % (res['gen_rc'], res['gen_err'][-300:]))
         else:
             try:
@@ -1747,8 +1733,7 @@ def run(ctx):
     for k in range(n_gen):
         oc = [obj_masks[(3 * k + j) % 128] for j in range(3)]
         ic = [ifc_masks[(2 * k + j) % 64] for j in range(2)]
-        # g-ir-generate dies on every typelib with a <glib:boxed> (PENDING generate:boxed:crash): few of them
-        g = gen_gir(rng, 'T%d' % k, oc, ic, use_base=rng.random() < 0.8, with_boxed=rng.random() < 0.08)
+        g = gen_gir(rng, 'T%d' % k, oc, ic, use_base=rng.random() < 0.8, with_boxed=rng.random() < 0.35)
         gens.append(g)
         cases.append(('generated', 'T%d' % k, g.text()))
         for lab, v in g.stats.counts.items():
@@ -1783,7 +1768,7 @@ def run(ctx):
     n_corr = 0
     disagreeing = []
     hyp_names = ('sizes_match_table', 'attrs_sorted', 'union_fields_plain', 'field_callbacks_counted', 'blobs_aligned',
-                 'no_discriminated_union', 'boxed_funcs_unset')
+                 'no_discriminated_union')
     for idx, (c, r) in enumerate(compiled):
         if answers is None:
             break
@@ -1874,14 +1859,13 @@ def run(ctx):
         'are not generated (vfunc must-chain-up/override/is-class-closure, signal has-class-closure, an instance '
         'parameter on a callback, deprecated on fields/vfuncs); everything generated is expected literally',
         'values computed by giroffsets.c (struct size/alignment, field offsets, enum storage) are wildcards in the oracle (C08)',
-        'normalisation of g-ir-generate dialect: no c:type (pointer flags not compared), allow-none = nullable, type-name/get-type on '
+        'normalisation of g-ir-generate dialect: no c:type (pointer flags not compared), allow-none read by the scanner\'s rule, type-name/get-type on '
         'unions and glib:*-function on classes read as their glib:* spellings, c:prefix, upper-case when=, a field whose type refers '
-        'to a named callback is written with the callback inlined, instance-parameter absent',
+        'to a named callback is written with the callback inlined, instance-parameter written only when it transfers ownership',
         'bsearch() is modelled as returning ANY element with an equal key (NULL only if none): glibc is not verified',
         'g_base_info_iterate_attributes reads next->offset before the bound check (one AttributeBlob past the table, inside the mapped file): memory safety is not modelled',
         'hypotheses of the theorems checked on every compiled typelib by the driver: header blob sizes = sizeof table, attribute table sorted, '
-        'no embedded callback in union fields, n_field_callbacks = number of embedded fields, no discriminated unions, '
-        'no copy/free function stored in a BLOB_TYPE_BOXED StructBlob',
+        'no embedded callback in union fields, n_field_callbacks = number of embedded fields, no discriminated unions',
         'cross-namespace references are compared by qualified name only (the kind of a foreign entry is not in this typelib)',
     ])
 
